@@ -333,3 +333,176 @@ Lemma pins_ok :
   (range_unit, content_range_formats, unsatisfiable_status, partial_status)
   = (bytes_of_string "bytes", ["bytes */%s"; "bytes %s-%s/%s"]%string, 416, 206).
 Proof. split; reflexivity. Qed.
+
+(* ------------------------------------------------------------------------ *)
+(* the precondition holds for every request in the RFC's canonical spelling, *)
+(* so for those the response is the RFC's unconditionally                    *)
+
+Lemma r_drop_while_hd_not p l : hd_not p l = true -> drop_while p l = l.
+Proof. destruct l as [|c r]; cbn; [reflexivity|]. intro H. apply negb_true_iff in H. rewrite H. reflexivity. Qed.
+
+Lemma strip_id p t : hd_not p t = true -> hd_not p (rev t) = true -> strip p t = t.
+Proof.
+  intros H1 H2. unfold strip, rstrip. rewrite (r_drop_while_hd_not p t H1), (r_drop_while_hd_not p (rev t) H2).
+  apply rev_involutive.
+Qed.
+
+Lemma space_not_digit_dash : forallb (fun s => negb (is_digit s) && negb (s =? 45)) py_space_codepoints = true.
+Proof. vm_compute. reflexivity. Qed.
+
+Definition digit_or_dash (c : N) : bool := is_digit c || (c =? 45).
+
+Lemma digit_or_dash_not_space c : digit_or_dash c = true -> py_isspace c = false /\ is_ows c = false /\ (c =? 44) = false /\ (c =? 61) = false.
+Proof.
+  intro H. split.
+  - destruct (py_isspace c) eqn:E; [|reflexivity]. unfold py_isspace in E. apply existsb_exists in E.
+    destruct E as [s [Hin Hs]]. apply N.eqb_eq in Hs. subst s.
+    pose proof space_not_digit_dash as F. rewrite forallb_forall in F. specialize (F _ Hin).
+    unfold digit_or_dash in H. destruct (is_digit c); destruct (c =? 45); cbn in *; congruence.
+  - unfold digit_or_dash, is_digit, is_ows in *. lia.
+Qed.
+
+Definition canon (t : list N) : Prop := t <> [] /\ forallb digit_or_dash t = true.
+
+Lemma r_forallb_rev (p : N -> bool) l : forallb p (rev l) = forallb p l.
+Proof.
+  induction l as [|c r IH]; cbn; [reflexivity|]. rewrite forallb_app, IH. cbn. rewrite andb_true_r. apply andb_comm.
+Qed.
+
+Lemma canon_hd_not t (p : N -> bool) : (forall c, digit_or_dash c = true -> p c = false) ->
+  forallb digit_or_dash t = true -> hd_not p t = true /\ hd_not p (rev t) = true.
+Proof.
+  intros Hp H. assert (G : forall l, forallb digit_or_dash l = true -> hd_not p l = true).
+  { intros [|c r]; cbn; [reflexivity|]. intro A. apply andb_prop in A. rewrite (Hp c (proj1 A)). reflexivity. }
+  split; apply G; [assumption|]. rewrite r_forallb_rev. assumption.
+Qed.
+
+Lemma split_all_none t : forallb digit_or_dash t = true -> split_all 44 t = [t].
+Proof.
+  induction t as [|c r IH]; cbn; [reflexivity|]. intro H. apply andb_prop in H. destruct H as [Hc Hr].
+  destruct (digit_or_dash_not_space c Hc) as [_ [_ [-> _]]]. rewrite (IH Hr). reflexivity.
+Qed.
+
+Lemma split_once_digits a b : forallb is_digit a = true -> split_once 45 (a ++ 45 :: b) = Some (a, b).
+Proof.
+  induction a as [|c r IH]; cbn; [reflexivity|]. intro H. apply andb_prop in H. destruct H as [Hc Hr].
+  assert ((c =? 45) = false) as -> by (unfold is_digit in Hc; lia). rewrite (IH Hr). reflexivity.
+Qed.
+
+Lemma classify_digit c : is_digit c = true -> classify c = IDigit (c - 48).
+Proof. intro H. unfold classify. assert ((c <? 127) = true) as -> by (unfold is_digit in H; lia). rewrite H. reflexivity. Qed.
+
+Lemma digits_run_digits ds : forall acc cnt, forallb is_digit ds = true ->
+  digits_run (map classify ds) acc cnt = (fold_left (fun a d => a * 10 + (d - 48)) ds acc, cnt + N.of_nat (List.length ds), []).
+Proof.
+  induction ds as [|c r IH]; intros acc cnt H; cbn [map digits_run fold_left List.length].
+  - f_equal. f_equal. lia.
+  - apply andb_prop in H. destruct H as [Hc Hr]. rewrite (classify_digit c Hc). cbn [digits_run]. rewrite (IH _ _ Hr).
+    f_equal. f_equal. lia.
+Qed.
+
+Lemma py_int_digits ds : ds <> [] -> forallb is_digit ds = true -> N.of_nat (List.length ds) <= max_int_digits ->
+  py_int ds = Some (Z.of_N (digits_value ds)).
+Proof.
+  intros Hne Hd Hl. destruct ds as [|c r]; [congruence|]. cbn [forallb] in Hd. apply andb_prop in Hd. destruct Hd as [Hc Hr].
+  unfold py_int. cbn [map]. rewrite (classify_digit c Hc). cbn [drop_ispace]. rewrite (digits_run_digits r _ _ Hr). cbn [drop_ispace].
+  cbn [List.length] in Hl. assert ((1 + N.of_nat (List.length r) <=? max_int_digits) = true) as -> by lia.
+  unfold digits_value. cbn [fold_left]. reflexivity.
+Qed.
+
+Lemma int_agrees_digits ds : forallb is_digit ds = true -> N.of_nat (List.length ds) <= max_int_digits -> int_agrees ds = true.
+Proof.
+  intros Hd Hl. destruct ds as [|c r]; [reflexivity|]. unfold int_agrees.
+  rewrite py_int_digits by (assumption || discriminate). unfold pos_value. rewrite Hd. apply Z.eqb_refl.
+Qed.
+
+Lemma r_undec_acc_value : forall l acc, forallb is_digit l = true ->
+  undec_acc l acc = Some (fold_left (fun a d => a * 10 + (d - 48)) l acc).
+Proof.
+  induction l as [|x r IH]; cbn; intros acc A; [reflexivity|]. apply andb_prop in A. destruct A as [A1 A2]. rewrite A1. apply IH. exact A2.
+Qed.
+
+Lemma pos_value_digits ds : ds <> [] -> forallb is_digit ds = true -> pos_value ds = Some (digits_value ds).
+Proof. intros Hn Hd. unfold pos_value. destruct ds; [congruence|]. rewrite Hd. reflexivity. Qed.
+
+Lemma pos_value_dec k : pos_value (dec k) = Some k.
+Proof.
+  rewrite pos_value_digits by (apply dec_nonempty || apply dec_all_digits). f_equal.
+  pose proof (undec_dec k) as U. rewrite undec_nonempty in U by apply dec_nonempty.
+  rewrite r_undec_acc_value in U by apply dec_all_digits. unfold digits_value. congruence.
+Qed.
+
+Lemma dec_length_bound k : N.size k <= 4000 -> N.of_nat (List.length (dec k)) <= max_int_digits.
+Proof.
+  intro H. unfold dec, max_int_digits.
+  assert (G : forall f n acc, (List.length (dec_aux f n acc) <= f + List.length acc)%nat).
+  { induction f as [|f IH]; intros n acc; cbn [dec_aux]; [lia|]. destruct (n <? 10); [cbn [List.length]; lia|].
+    specialize (IH (n / 10) ((48 + n mod 10) :: acc)). cbn [List.length] in IH. lia. }
+  specialize (G (S (N.to_nat (N.size k))) k []). cbn [List.length] in G. lia.
+Qed.
+
+Lemma digits_are_canon ds : forallb is_digit ds = true -> forallb digit_or_dash ds = true.
+Proof.
+  induction ds as [|c r IH]; cbn; [reflexivity|]. intro H. apply andb_prop in H. destruct H as [Hc Hr].
+  unfold digit_or_dash at 1. rewrite Hc, (IH Hr). reflexivity.
+Qed.
+
+(* "bytes=" t  with t = a "-" b, a and b digit strings (possibly empty) of at most 4300 digits *)
+Lemma canonical_strict a b :
+  forallb is_digit a = true -> forallb is_digit b = true ->
+  N.of_nat (List.length a) <= max_int_digits -> N.of_nat (List.length b) <= max_int_digits ->
+  let h := bytes_of_string "bytes=" ++ a ++ 45 :: b in
+  range_strict h = true /\ rfc_ranges h = option_map (fun r => [r]) (rfc_spec (a ++ 45 :: b)).
+Proof.
+  intros Ha Hb La Lb h.
+  assert (Hc : forallb digit_or_dash (a ++ 45 :: b) = true).
+  { rewrite forallb_app. cbn [forallb]. rewrite (digits_are_canon a Ha), (digits_are_canon b Hb). reflexivity. }
+  destruct (canon_hd_not _ py_isspace (fun c H => proj1 (digit_or_dash_not_space c H)) Hc) as [P1 P2].
+  destruct (canon_hd_not _ is_ows (fun c H => proj1 (proj2 (digit_or_dash_not_space c H))) Hc) as [O1 O2].
+  assert (Hsplit : split_once 61 h = Some (bytes_of_string "bytes", a ++ 45 :: b)) by reflexivity.
+  unfold range_strict, rfc_ranges. rewrite Hsplit, range_unit_ok. cbn [list_N_eqb]. 
+  change (list_N_eqb (bytes_of_string "bytes") (bytes_of_string "bytes")) with true. cbn match.
+  rewrite (split_all_none _ Hc), O1, O2. cbn [forallb traverse andb].
+  unfold element_strict, py_strip. rewrite (strip_id _ _ P1 P2), (strip_id _ _ O1 O2).
+  rewrite (proj2 (list_N_eqb_eq _ _) eq_refl). rewrite (split_once_digits a b Ha).
+  rewrite (int_agrees_digits a Ha La), (int_agrees_digits b Hb Lb). split; [reflexivity|].
+  destruct (rfc_spec (a ++ 45 :: b)); reflexivity.
+Qed.
+
+Lemma rfc_spec_canonical a b : forallb is_digit a = true ->
+  rfc_spec (a ++ 45 :: b) =
+  match a, b with
+  | [], _ => option_map Suffix (pos_value b)
+  | _, [] => option_map From (pos_value a)
+  | _, _ => match pos_value a, pos_value b with
+            | Some f, Some l => if l <? f then None else Some (FromTo f l)
+            | _, _ => None
+            end
+  end.
+Proof. intro Ha. unfold rfc_spec. rewrite (split_once_digits a b Ha). reflexivity. Qed.
+
+Lemma canonical_requests_ok :
+  forall m data f l, N.size f <= 4000 -> N.size l <= 4000 ->
+    let n := N.of_nat (List.length data) in
+    (f <= l -> render m data (Some (bytes_of_string "bytes=" ++ dec f ++ [45] ++ dec l)) = respond m data (rfc_decide n (FromTo f l))) /\
+    render m data (Some (bytes_of_string "bytes=" ++ dec f ++ [45])) = respond m data (rfc_decide n (From f)) /\
+    render m data (Some (bytes_of_string "bytes=" ++ [45] ++ dec l)) = respond m data (rfc_decide n (Suffix l)).
+Proof.
+  intros m data f l Sf Sl n.
+  pose proof (dec_all_digits f) as Df. pose proof (dec_all_digits l) as Dl.
+  pose proof (dec_length_bound f Sf) as Lf. pose proof (dec_length_bound l Sl) as Ll.
+  pose proof (dec_nonempty f) as Nf. pose proof (dec_nonempty l) as Nl.
+  assert (L0 : N.of_nat (List.length (@nil N)) <= max_int_digits) by (cbn; unfold max_int_digits; lia).
+  split; [intro Hfl|split].
+  - destruct (canonical_strict (dec f) (dec l) Df Dl Lf Ll) as [S R]. rewrite (rfc_spec_canonical _ _ Df) in R.
+    rewrite !pos_value_dec in R. destruct (dec f) eqn:Ef; [congruence|]. destruct (dec l) eqn:El; [congruence|].
+    rewrite <- Ef, <- El in *. assert ((l <? f) = false) as E by lia. rewrite E in R. cbn [option_map] in R.
+    change (dec f ++ [45] ++ dec l) with (dec f ++ 45 :: dec l).
+    exact (proj1 (rfc7233_single_range_ok m data _ S) _ R).
+  - destruct (canonical_strict (dec f) [] Df eq_refl Lf L0) as [S R]. rewrite (rfc_spec_canonical _ _ Df) in R.
+    rewrite pos_value_dec in R. destruct (dec f) eqn:Ef; [congruence|]. rewrite <- Ef in *. cbn [option_map] in R.
+    exact (proj1 (rfc7233_single_range_ok m data _ S) _ R).
+  - destruct (canonical_strict [] (dec l) eq_refl Dl L0 Ll) as [S R]. rewrite (rfc_spec_canonical [] _ eq_refl) in R.
+    rewrite pos_value_dec in R. cbn [option_map] in R.
+    exact (proj1 (rfc7233_single_range_ok m data _ S) _ R).
+Qed.
